@@ -10,6 +10,7 @@ mod livesync;
 mod query;
 mod replica;
 mod session;
+mod storetx;
 mod syncsession;
 mod world;
 
@@ -110,6 +111,12 @@ fn main() {
             let w = std::sync::Arc::new(World::new(seed, 3, 3));
             let scheds = args.kv.get("schedules").map(|p| read_schedules(p)).unwrap_or_default();
             livesync::run(w, seed, scheds, &mut trace, &mut sum);
+        }
+        "storetx" => {
+            let w = World::new(seed, 3, 7);
+            let mut rng = Rng::new(seed);
+            let scheds = args.kv.get("schedules").map(|p| read_schedules(p)).unwrap_or_default();
+            storetx::run(&w, seed, &mut rng, scheds, args.num("n", 10) as usize, &dir, &mut trace, &mut sum);
         }
         "docs" => {
             let w = World::new(seed, 3, 7);
